@@ -174,6 +174,9 @@ def main(tier, replay_payload=None):
     def replayer(payload):
         return make_replayer(universe_of(tier, payload), menu_fn, kf)(payload)
     run.replayer = replayer
+    # the same identifier in two stores of one process (different algorithms), read back by another process
+    two_stores(run, "C01", ["stored-object-not-retrievable", "retrieved-bytes-differ", "cid-not-digest", "call-failed",
+                            "other-pid-lost"])
     xh.run_kernels(run, "C01", kernels(tier))
     for f in loader.function_lines(loader.load(), API_FUNCS):
         if f not in run.functions:
